@@ -39,7 +39,12 @@ Advance == /\ l <= Len(Trace) /\ E.ev # "reset" /\ now < E.t
            /\ now' = E.t /\ UNCHANGED <<others, l, pre>>
 
 TReset == E.ev = "reset" /\ ResetAll /\ pre' = {}
-TSkip == E.ev \in {"call.accept", "ret.accept", "call.dial"} /\ Same /\ Keep
+TSkip == E.ev \in {"call.accept", "ret.accept"} /\ Same /\ Keep
+\* the window of a dial is counted from the moment the caller asked, not from when its lookup got to run
+TCallDial == /\ E.ev = "call.dial"
+             /\ dstart' = [dstart EXCEPT ![E.a] = IF @ < 0 THEN now ELSE @]
+             /\ UNCHANGED <<now, acc, astart, wire, lastMsg, rpc, rid, rgen, cur, gens, buf, done, tws, twn, dpc, dgen, ddl, dgot, dres, dcount, panicked>>
+             /\ Keep
 
 TAcceptListening == E.ev = "grpc.accept.listening" /\ AcceptListen(E.a) /\ Keep
 TAcceptSent == /\ E.ev = "grpc.accept.sent"
@@ -88,7 +93,7 @@ AheadPark == /\ l <= Len(Trace) /\ E.ev = "grpc.dial.took" /\ now = E.t
 
 TraceNext ==
   \/ /\ l <= Len(Trace) /\ (E.ev = "reset" \/ now = E.t) /\ l' = l + 1
-     /\ (TReset \/ TSkip \/ TAcceptListening \/ TAcceptSent \/ TRunRecv \/ TLookup \/ TRunPark \/ TDialSlot
+     /\ (TReset \/ TSkip \/ TCallDial \/ TAcceptListening \/ TAcceptSent \/ TRunRecv \/ TLookup \/ TRunPark \/ TDialSlot
          \/ TDialTook \/ TDialTimeout \/ TTWDeleted \/ TRetDial \/ TEnd)
   \/ Advance
   \/ AheadSend \/ AheadPark
